@@ -378,7 +378,7 @@ def magnitude_exception(case):
     if d.get('kind') != 'exception':
         return False
     return (d.get('model') == 2 and d.get('err') in ('ZeroDivisionError', 'Other:OverflowError', 'TypeError')) or \
-        (d.get('model') == 3 and d.get('err') == 'TypeError')
+        (d.get('model') == 3 and (d.get('err') == 'TypeError' or uc.has_fn(uc.tree_unjson(case['tree']), (3, 4))))
 
 
 # repaired in /repo (fix: commits, see build/fixes): F6 compound exponents, scaled dimensionless arguments
